@@ -248,6 +248,18 @@ pub fn build(r: &mut Rng, kind: ConnKind, client: Endpoint, server: Endpoint, o:
             steps.push(Step { dt_ns: g, seg: tcp::data(h, a, b, sq, ak, body, t, ecr, pkt::ACK | pkt::RST) });
         }
     }
+    // TCP Fast Open, one connection in eight: the client's first data segment rides on its SYN (the data keeps its
+    // sequence number, one past the SYN's own)
+    if r.chance(1, 8) {
+        let syn_at = steps.iter().position(|st| st.seg.src == client && st.seg.flags & pkt::SYN != 0 && st.seg.flags & pkt::ACK == 0);
+        let data_at = steps.iter().position(|st| st.seg.src == client && st.seg.flags & pkt::SYN == 0 && !st.seg.payload.is_empty());
+        if let (Some(si), Some(di)) = (syn_at, data_at) {
+            if steps[di].seg.seq == steps[si].seg.seq.wrapping_add(1) && steps[si].seg.payload.is_empty() && steps[di].seg.flags & (pkt::FIN | pkt::RST) == 0 {
+                let moved = steps.remove(di);
+                steps[si].seg.payload = moved.seg.payload;
+            }
+        }
+    }
     // header fields without bearing on the byte stream: on one connection in ten data segments carry the urgent flag
     // with a pointer inside, at the end of or beyond the segment (or a pointer without the flag), and ECN bits
     if r.chance(1, 10) {
